@@ -21,6 +21,13 @@ WHAT = {
     "parse-twice-differs": "parsing the same text twice gives different results",
     "parse-entry-differs": "parser::parse differs from Parser::new + file::file + build_tree",
     "hang": "lexing/parsing does not terminate",
+    "deep-nesting-crash": "the recursive-descent parser overflows the 8 MiB main-thread stack on deeply nested input: "
+                          "the process aborts, no syntax tree and no diagnostic is produced",
+    "format-errors-panic": "ParseResult::format_errors panics",
+    "format-errors-count": "format_errors drops or invents diagnostics",
+    "diag-line-col-wrong": "the line:column printed for a parser diagnostic is not the position of its range start",
+    "root-not-a-file": "the root of the syntax tree is not a FILE node",
+    "lower-diag-range-outside-text": "a diagnostic of CST->AST lowering has a range outside the text or off a char boundary",
 }
 
 
@@ -61,7 +68,10 @@ def run(ctx):
     if ctx.replay:
         rp = json.load(open(ctx.replay))
         hx = next((c.get("input_hex") for c in rp.get("cases", []) if c.get("input_hex") is not None), None)
-        if hx is not None:
+        dp = next((c.get("deep_input") for c in rp.get("cases", []) if c.get("deep_input")), None)
+        if dp:
+            extra = ["--only-deep", dp]
+        elif hx is not None:
             extra = ["--hex", hx]
     ok, out = ctx.gv("c12", extra)
     rd = ctx.run_dir
@@ -76,9 +86,13 @@ def run(ctx):
 
     # ---- (1) property oracles on the implementation's own outputs
     for r in oracle_rows:
-        cid, stream, kind, detail, hx = r[0], r[1], r[2], vlib.unesc(r[3]), r[4]
-        ctx.report({"oracle": "direct", "kind": kind}, WHAT.get(kind, kind),
-                   {"id": cid, "stream": stream, "input_hex": hx, "input": unhex(hx)[:400], "detail": detail})
+        cid, stream, kind, detail, hx = r[0], r[1], r[2], vlib.unesc(r[3]), (r[4] if len(r) > 4 else "")
+        if hx.startswith("deep:"):
+            payload = {"id": cid, "stream": stream, "deep_input": hx[5:], "detail": detail,
+                       "regenerate": f"gv c12 --tier {ctx.tier} --deep {hx[5:]}   (child process, default main-thread stack)"}
+        else:
+            payload = {"id": cid, "stream": stream, "input_hex": hx, "input": unhex(hx)[:400], "detail": detail}
+        ctx.report({"oracle": "direct", "kind": kind}, WHAT.get(kind, kind), payload)
     ctx.violations.sort(key=lambda v: len(v[2].get("input_hex", "")))
 
     # ---- (2) model vs implementation
